@@ -154,6 +154,9 @@ func (e *testEnv) endpoints() []endpointCase {
 	j := http.Header{"Accept": {"text/html, application/json"}}
 	return []endpointCase{
 		{name: "protected", target: "/app/page?x=1"},
+		{name: "protected-encoded", target: "/%61pp/page"},
+		{name: "skip-js-encoded", target: "/foo/%61.js"},
+		{name: "protected-encoded-slash", target: "/app%2Fpage"},
 		{name: "protected-ajax", target: "/app/data", header: j},
 		{name: "protected-post", target: "/app/submit", method: "POST", body: "a=b"},
 		{name: "protected-options", target: "/app/page", method: "OPTIONS"},
@@ -236,7 +239,7 @@ func (e *testEnv) monitorC01(ep endpointCase, cr credential, v *respView, real s
 	o := e.opts
 	served := len(v.Hits) > 0 || v.Status == 202 || (strings.HasSuffix(strings.SplitN(ep.target, "?", 2)[0], "/userinfo") && v.Status == 200 && strings.TrimSpace(v.Body) != "{}")
 	// bypasses the harness configured (its own evaluation, on the PATH only)
-	path := strings.SplitN(ep.target, "?", 2)[0]
+	path := harnessPathOf(ep.target)
 	method := ep.method
 	if method == "" {
 		method = "GET"
